@@ -749,9 +749,18 @@ func TestC03(t *testing.T) {
 		cfg := cfg
 		cases = append(cases, run.Case{ID: "12/rogue-server/no-credential/" + cfg.name, Run: func(t *testing.T) run.Outcome { return c03NoCred(t, p, cfg, env.Seed+1) }})
 	}
+	early := 0
+	for _, sc := range scs {
+		if sc.want != mustFail {
+			continue
+		}
+		sc := sc
+		early++
+		cases = append(cases, run.Case{ID: sc.name + "/early-data", Run: func(t *testing.T) run.Outcome { return c03EarlyData(t, p, sc, env.Seed+1) }})
+	}
 	for _, cfg := range resumeEchoConfigs() {
 		cfg := cfg
 		cases = append(cases, run.Case{ID: "12/rogue-server/resumption-echo/" + cfg.name, Run: func(t *testing.T) run.Outcome { return c03ResumeEcho(t, p, cfg, env.Seed+1) }})
 	}
-	run.Main(t, "C03", cases, map[string]any{"resumption_echo_server_configs": len(resumeEchoConfigs()), "scenarios": len(scs), "masks": len(masks), "max_faults": k, "N_per_direction": 5, "credential_less_server_configs": len(nocredConfigs())})
+	run.Main(t, "C03", cases, map[string]any{"resumption_echo_server_configs": len(resumeEchoConfigs()), "early_data_scenarios": early, "scenarios": len(scs), "masks": len(masks), "max_faults": k, "N_per_direction": 5, "credential_less_server_configs": len(nocredConfigs())})
 }
